@@ -652,3 +652,240 @@ func pick2(r *rng.R, a, b int) int {
 	}
 	return b
 }
+
+// ---------------------------------------------------------------------------------------------
+// C12: every kind of request, and mutation
+
+// GenSpec12 is GenSpec plus two entities c1, c2 whose configurations the scripts create directly.
+func GenSpec12(r *rng.R) (nbenv.Spec, map[string][]ModelPath) {
+	s, tables := GenSpec(r)
+	s.Targets = append(s.Targets,
+		nbenv.TargetSpec{ID: "c1", HasAspect: true, Type: "model1", Version: "1.0", Persistent: r.Bool()},
+		nbenv.TargetSpec{ID: "c2", HasAspect: true, Type: "model1", Version: "1.0"})
+	return s, tables
+}
+
+var wildKeyVals = []string{"*", "(", ")", "[", "]", "+", "?", "\\", "|", "{", "}", "^", "$", ".", "...", "a", "1", "x/y", " ", "é", "\n", ""}
+
+// GenGetPath generates a Get path: a model instance with wildcards / odd characters.
+func GenGetPath(r *rng.R, table []ModelPath, target string) *nbwire.PathMsg {
+	if len(table) == 0 {
+		table = Pool
+	}
+	in := Instantiate(r, table[r.Intn(len(table))], false)
+	p := &nbwire.PathMsg{Target: target, Elem: in.Elems}
+	switch r.Intn(10) {
+	case 0:
+		p.Elem = p.Elem[:r.Intn(len(p.Elem)+1)]
+	case 1:
+		p.Elem[r.Intn(len(p.Elem))].Name = r.Pick([]string{"*", "...", "a(b", "[", "x*", "", "a\\", "$"})
+	case 2, 3:
+		for _, e := range p.Elem {
+			for k := range e.Key {
+				e.Key[k] = r.Pick(wildKeyVals)
+			}
+		}
+	case 4:
+		p.Elem = append(p.Elem, &pb.PathElem{Name: "..."})
+	case 5:
+		p.Elem, p.Element = nil, []string{"foo", r.Pick([]string{"*", "(", "a[b"})}
+	case 6:
+		p.Elem = nil
+	}
+	return p
+}
+
+// GenGet generates a Get request.
+func GenGet(r *rng.R, spec nbenv.Spec, tables map[string][]ModelPath, allowNilOverride bool) (*nbwire.Req, []string) {
+	req := &nbwire.Req{HasEnc: true, HasType: true}
+	var tags []string
+	switch k := r.Intn(12); {
+	case k < 5:
+		req.Enc = 2
+	case k < 8:
+		req.Enc = 0
+	case k < 10:
+		req.Enc = 4
+	default:
+		req.Enc = []int{1, 3, 7}[r.Intn(3)]
+		tags = append(tags, "get-bad-encoding")
+	}
+	if r.Chance(1, 6) {
+		req.Type = r.Range(1, 3)
+		tags = append(tags, fmt.Sprintf("get-type-%d", req.Type))
+	}
+	targets := []string{"t1", "t2", "t3", "c1", "c2", "tna", "tnp", "tx", "", "*"}
+	n := r.Range(0, 3)
+	for i := 0; i < n; i++ {
+		t := targets[r.Intn(len(targets))]
+		if r.Chance(2, 3) {
+			t = r.Pick([]string{"t1", "c1", "c2"})
+		}
+		req.Paths = append(req.Paths, GenGetPath(r, Pool, t))
+	}
+	switch r.Intn(6) {
+	case 0:
+		req.Prefix = &nbwire.PathMsg{Target: r.Pick([]string{"t1", "c1", "", "*", "tx"})}
+		tags = append(tags, "get-prefix-target")
+	case 1:
+		req.Prefix = GenGetPath(r, Pool, r.Pick([]string{"t1", "c1", "", "c2"}))
+		tags = append(tags, "get-prefix-path")
+	}
+	if n == 0 {
+		tags = append(tags, "get-no-paths")
+	}
+	var used []string
+	for _, p := range req.Paths {
+		used = append(used, p.Target)
+	}
+	if req.Prefix != nil {
+		used = append(used, req.Prefix.Target)
+	}
+	exts, et := GenExts(r, spec, used, allowNilOverride)
+	if r.Chance(1, 25) {
+		exts = append(exts, StrategyExt(1, 0))
+		tags = append(tags, "get-synchronous")
+	}
+	req.Exts = exts
+	tags = append(tags, et...)
+	return req, tags
+}
+
+// GenSubStream generates the messages of one Subscribe stream.
+func GenSubStream(r *rng.R) ([]nbwire.SubMsg, []string) {
+	var out []nbwire.SubMsg
+	var tags []string
+	n := r.Range(1, 3)
+	for i := 0; i < n; i++ {
+		switch k := r.Intn(10); {
+		case k < 6:
+			m := nbwire.SubMsg{Kind: "S"}
+			switch r.Intn(4) {
+			case 0:
+				tags = append(tags, "sub-no-prefix")
+			case 1:
+				m.Prefix = &nbwire.PathMsg{Target: r.Pick([]string{"t1", "tx", "c1"})}
+				tags = append(tags, "sub-prefix-target")
+			case 2:
+				m.Prefix = &nbwire.PathMsg{Elem: []*pb.PathElem{{Name: "c"}}}
+				tags = append(tags, "sub-prefix-elems")
+			default:
+				m.Prefix = &nbwire.PathMsg{}
+			}
+			ns := r.Range(0, 4)
+			for j := 0; j < ns; j++ {
+				if r.Chance(1, 5) {
+					m.Subs = append(m.Subs, nil)
+					tags = append(tags, "sub-entry-no-path")
+					continue
+				}
+				m.Subs = append(m.Subs, GenGetPath(r, Pool, r.Pick([]string{"t1", "t2", "", "tx", "c1"})))
+			}
+			out = append(out, m)
+		case k < 8:
+			out = append(out, nbwire.SubMsg{Kind: "P"})
+			tags = append(tags, "sub-poll")
+		default:
+			out = append(out, nbwire.SubMsg{Kind: "O"})
+			tags = append(tags, "sub-other")
+		}
+	}
+	return out, tags
+}
+
+// Mutate applies one random structural mutation to a request (omissions, odd texts, swapped kinds).
+func Mutate(r *rng.R, req *nbwire.Req) string {
+	paths := func() []*nbwire.PathMsg {
+		var ps []*nbwire.PathMsg
+		if req.Prefix != nil {
+			ps = append(ps, req.Prefix)
+		}
+		ps = append(ps, req.Delete...)
+		ps = append(ps, req.Paths...)
+		for _, u := range req.Update {
+			if u.Path != nil {
+				ps = append(ps, u.Path)
+			}
+		}
+		for _, u := range req.Replace {
+			if u.Path != nil {
+				ps = append(ps, u.Path)
+			}
+		}
+		return ps
+	}
+	ps := paths()
+	switch r.Intn(12) {
+	case 0:
+		if len(req.Update) > 0 {
+			req.Update[r.Intn(len(req.Update))].Path = nil
+			return "mut-nil-path"
+		}
+	case 1:
+		if len(req.Update) > 0 {
+			req.Update[r.Intn(len(req.Update))].Val = nbwire.Val{Kind: r.Pick([]string{"_", "N", "X"})}
+			return "mut-no-value"
+		}
+	case 2:
+		if len(ps) > 0 {
+			ps[r.Intn(len(ps))].Elem = nil
+			return "mut-no-elems"
+		}
+	case 3:
+		if len(ps) > 0 {
+			p := ps[r.Intn(len(ps))]
+			p.Elem = append(p.Elem, &pb.PathElem{Name: r.Pick([]string{"", "[", "]", "x[abc]", "x[=]", "[k=", "a/b", "\\", "x[a=b][c]", "*", "..."})})
+			return "mut-odd-elem"
+		}
+	case 4:
+		if len(ps) > 0 {
+			p := ps[r.Intn(len(ps))]
+			for _, e := range p.Elem {
+				if e.Key == nil {
+					e.Key = map[string]string{}
+				}
+				e.Key[r.Pick([]string{"k", "", "k=", "[", "k]"})] = r.Pick(wildKeyVals)
+				break
+			}
+			return "mut-odd-key"
+		}
+	case 5:
+		if len(ps) > 0 {
+			ps[r.Intn(len(ps))].Target = r.Pick([]string{"", "*", "tx", "tna", "t1", "c2", "é", " "})
+			return "mut-target"
+		}
+	case 6:
+		req.Prefix = nil
+		return "mut-no-prefix"
+	case 7:
+		req.Prefix = &nbwire.PathMsg{Target: r.Pick([]string{"", "t1", "*", "c2"})}
+		return "mut-prefix"
+	case 8:
+		if len(ps) > 0 {
+			p := ps[r.Intn(len(ps))]
+			p.Element = []string{r.Pick([]string{"", "a", "x[abc]", "[", "l[k=1]"})}
+			if r.Bool() {
+				p.Elem = nil
+			}
+			return "mut-v03"
+		}
+	case 9:
+		req.Exts = append(req.Exts, nbwire.Ext{ID: uint32(pick2(r, 111, 112)), Bytes: []byte{byte(r.Intn(256)), byte(r.Intn(256)), byte(r.Intn(8))}})
+		return "mut-ext-bytes"
+	case 10:
+		if len(req.Delete) > 0 && len(req.Update) > 0 {
+			req.Delete = append(req.Delete, req.Update[0].Path)
+			if req.Delete[len(req.Delete)-1] == nil {
+				req.Delete = req.Delete[:len(req.Delete)-1]
+			}
+			return "mut-delete-updated"
+		}
+	default:
+		if len(req.Update) > 0 {
+			u := req.Update[r.Intn(len(req.Update))]
+			req.Update = append(req.Update, u)
+			return "mut-duplicate"
+		}
+	}
+	return "mut-none"
+}
